@@ -243,7 +243,7 @@ func vfMicroRun(t *testing.T, property string, testName string, scenarios map[st
 		names = append(names, n)
 	}
 	sort.Strings(names)
-	var schedules int64
+	var schedules, decisions int64
 	exhaustive := true
 	var summary []string
 	outcomes := map[string]int64{}
@@ -259,6 +259,7 @@ func vfMicroRun(t *testing.T, property string, testName string, scenarios map[st
 			res.Violate(name+"/"+v.Signature, fmt.Sprintf("scenario %s, schedule %v: %s\nschedule:\n  %s", name, v.Choices, v.Detail, strings.Join(v.Trace, "\n  ")), vfMicroReplay{name, v.Choices})
 		}
 		schedules += st.Executions
+		decisions += st.Decisions
 		exhaustive = exhaustive && st.Exhaustive
 		for o, c := range st.Outcomes {
 			outcomes[name+": "+o] += c
@@ -269,7 +270,7 @@ func vfMicroRun(t *testing.T, property string, testName string, scenarios map[st
 		}
 	}
 	res.Set("states", schedules)
-	res.Set("transitions", schedules)
+	res.Set("transitions", decisions)
 	res.Set("traces_validated_against_impl", schedules)
 	res.Set("micro_schedules", schedules)
 	res.Set("micro_preemption_bound_completed", int64(bound))
